@@ -2147,11 +2147,16 @@ func (x *Exec) step(s *State, instr ssa.Instruction) {
 		if ct, ok := under(in.Type()).(*types.Chan); ok {
 			es = sizeofType(ct.Elem())
 		}
-		goal := Ge(sz, Int(0))
+		// two obligations, so that a finding about one failure class (e.g. an
+		// unchecked huge capacity) does not hide the other (a negative one)
+		neg := Ge(sz, Int(0))
+		x.oblige(s, "makechan", x.label(s, in)+"/negative", neg, in, "make(chan, n): negative n panics")
+		s.assume(neg)
 		if es > 0 {
-			goal = And(goal, Le(Mul(sz, Int(es)), Int((1<<48)-96)))
+			big := Le(Mul(sz, Int(es)), Int((1<<48)-96))
+			x.oblige(s, "makechan", x.label(s, in)+"/too-large", big, in, "make(chan, n): too large n panics")
+			s.assume(big)
 		}
-		x.check(s, "makechan", in, goal, "make(chan, n): n negative or too large panics")
 		o := x.E.storeObject(fmt.Sprintf("%s%s.%s:chan", s.top().prefix, shortFn(in.Parent()), in.Name()), in.Type(), false, "chan")
 		s.heap[o.id] = &ChanStore{Cap: sz, Closed: TFalse, SentCnt: Int(0), RecvCnt: Int(0), Held: Int(0), Sent: Str(""), Local: true, Len: Int(0), LastCount: Int(0)}
 		x.setReg(s, in, &ChanV{Nil: TFalse, Obj: o, Elem: under(in.Type()).(*types.Chan).Elem()})
